@@ -95,6 +95,9 @@ PROPS = {
     "C22": dict(level="fault_enumeration", parts=[dict(engine="e1", quick=100, thorough=6000), dict(engine="e3", quick=500, thorough=20000)],
                 text="Fault enumeration (E1): every generated base history is first run fault-free to count user callbacks by class (body op, V::eq, V::hash, cycle_fn, cycle_initial/cycle_result, event callback); it is then re-run with a panic injected at every callback of the rare classes and a sample of body ops. Oracle: the panic reaches the caller of that step, the step is retried (after a new revision for poisoned cycle members) and every later result = reference; a process abort (double panic) is reported from the worker's seed file. Concurrent part (E3): a panic at a random callback while other threads request the same or dependent nodes: waiters get PropagatedPanic or a correct value, never hang.",
                 note="One genuine defect was repaired (fix: commit f6eb44f), one is recorded (known-findings.txt: stale-output deletion interrupted by an event-callback panic)."),
+    "C23": dict(level="exploration", parts=[dict(engine="e1", quick=2500, thorough=60000)],
+                text="Histories of the single-handle classes (structs, interning with reclamation, LRU eviction, fixpoint and fallback cycles, specify, accumulators; one third with an injected panic) executed under a quarantining, poisoning global allocator: freed blocks are poisoned and parked, so a read after free yields poison (checked on every value read back from salsa), a write after free is detected when the block leaves quarantine, a free of a quarantined block is a double free; references returned by q_ref are held across later requests and revalidated until the next mutable borrow; on a sample the live bytes left after dropping the database must not grow from one execution to the next. A segfault/abort of a worker is attributed to its seed.",
+                note="Dynamic detection on sampled histories, not a proof of absence; single-threaded only (the concurrent engine does not run under the guard); no Miri sample in this round."),
     "C26": dict(level="exploration", parts=[dict(engine="e1p", quick=6000, thorough=100000)],
                 text="Histories with SnapshotRestore steps (serde_json round trip of the whole database into a fresh database of the same type = crash/restart with only durable state surviving) at arbitrary points; every persisted function returns the reference value on the restored database, unchanged persisted results are not re-executed (justification model), the history continues with values = reference.",
                 note="q_noeq / q_lru are deliberately not persisted (dependency flattening); recorded findings are matched by their own classes."),
